@@ -17,8 +17,9 @@ tier = "quick"
 for i, a in enumerate(args):
     if a == "--checks": checks = args[i + 1].split(",")
     if a == "--tier": tier = args[i + 1]
-src = "/tmp/seeds/%s" % pid
-wt = "/tmp/confirm_%s" % pid
+SUF = os.environ.get("SEED_SUFFIX", "")
+src = "%s/%s" % (os.environ.get("SEED_SRC", "/tmp/seeds"), pid)
+wt = "/tmp/confirm%s_%s" % (SUF, pid)
 env = dict(os.environ, GOFLAGS="-mod=mod", GOPROXY="off", GOSUMDB="off", GOTOOLCHAIN="local")
 def sh(cmd, cwd=None, timeout=3000):
     p = subprocess.run(cmd, shell=True, cwd=cwd, env=env, stdout=subprocess.PIPE, stderr=subprocess.STDOUT, text=True, timeout=timeout)
@@ -80,7 +81,7 @@ try:
         lines = [l for l in p.stdout.splitlines() if l.startswith("VIOLATION") or l.startswith("  ") or l.startswith("INFRA")][:6]
         res["checks"][c] = {"exit": p.returncode, "tier": tier, "wall_s": round(time.time() - t), "first_lines": lines}
         print(c, "exit", p.returncode, lines[:2])
-    dst = "/verif/seeded/%s" % pid
+    dst = "/verif/seeded/%s%s" % (pid, SUF)
     shutil.rmtree(dst, ignore_errors=True)
     os.makedirs(dst)
     shutil.copy(src + "/patch.diff", dst)
